@@ -43,7 +43,7 @@ type c08Case struct {
 }
 
 var c08LeafDefects = []string{"missing-link", "forged-link", "tampered-link", "rule-violation", "threshold"}
-var c08SubDefects = []string{"sub-foreign-sig", "sub-bad-sig", "sub-missing-dir", "sub-expired", "sub-inspection-fails"}
+var c08SubDefects = []string{"sub-foreign-sig", "sub-bad-sig", "sub-missing-dir", "sub-expired", "sub-inspection-fails", "sub-dir-in-cwd", "sub-disagree"}
 
 func c08GenLevel(t *rapid.T, depth int, path string, allowSub bool) c08Level {
 	n := rapid.IntRange(1, 2).Draw(t, "nsteps"+path)
@@ -142,6 +142,7 @@ type c08Builder struct {
 	firstSub bool
 	certs   map[string]*hx.BuiltCert
 	usedPKI bool
+	variant string // appended to the content of created files (one functionary's own, internally consistent, chain)
 }
 
 // funcKeyID resolves a functionary name (pool key or "pki:<leaf>") to its key id.
@@ -199,7 +200,7 @@ func (b *c08Builder) buildLevel(lv c08Level, dir string, isRoot bool) hx.MLayout
 				delete(b.tree, st.Deletes)
 			}
 			if st.Creates != "" {
-				b.tree[st.Creates] = "made by " + st.Name + "\n"
+				b.tree[st.Creates] = "made by " + st.Name + b.variant + "\n"
 			}
 			after := copyFiles(b.tree)
 			for fi, f := range st.Functionaries {
@@ -236,7 +237,7 @@ func (b *c08Builder) buildLevel(lv c08Level, dir string, isRoot bool) hx.MLayout
 		} else {
 			// a sublayout: every functionary delivers the same sublayout, signed by itself, and the
 			// links of the sublayout's steps in <step>.<keyid8>/
-			var afterSub map[string]string
+			var afterSub, dissent map[string]string
 			if b.c.CertSub && isRoot && !b.firstSub && b.certs != nil {
 				// one more functionary, authorised by certificate constraint instead of a listed key
 				st.Functionaries = append(append([]string{}, st.Functionaries...), "pki:leaf1")
@@ -268,8 +269,18 @@ func (b *c08Builder) buildLevel(lv c08Level, dir string, isRoot bool) hx.MLayout
 				if defectHere {
 					inner = sub
 				}
+				disagree := defectHere && st.Defect == "sub-disagree" && len(st.Functionaries) > 1 && b.variant == ""
+				if disagree {
+					// this functionary's chain is consistent in itself, but it built something else
+					b.variant = " (built differently)"
+				}
 				subLay := b.buildLevel(inner, subDir, false)
-				afterSub = copyFiles(b.tree)
+				if disagree {
+					b.variant = ""
+					dissent = copyFiles(b.tree)
+				} else {
+					afterSub = copyFiles(b.tree)
+				}
 				file := hx.WMetaFile{Name: dir + hx.LinkFileName(st.Name, kid), Wrapper: b.c.Wrapper, Meta: hx.MMeta{Layout: &subLay}, Sigs: []hx.WSig{{Key: f, WithCert: strings.HasPrefix(f, "pki:")}}}
 				if defectHere {
 					switch st.Defect {
@@ -286,6 +297,13 @@ func (b *c08Builder) buildLevel(lv c08Level, dir string, isRoot bool) hx.MLayout
 						} else {
 							b.defects = append(b.defects, st.Defect+"@"+st.Name)
 						}
+					case "sub-dir-in-cwd":
+						// the sublayout is offered, its links are not in the bundle - but a directory of the same
+						// name with all of them lies in the verifier's working directory
+						for i := nLinksBefore; i < len(b.links); i++ {
+							b.links[i].InCwd = true
+						}
+						b.defects = append(b.defects, "sub-dir-in-cwd@"+st.Name)
 					case "sub-missing-dir":
 						// the sublayout is offered, but none of its links
 						b.links = b.links[:nLinksBefore]
@@ -293,6 +311,10 @@ func (b *c08Builder) buildLevel(lv c08Level, dir string, isRoot bool) hx.MLayout
 					}
 				}
 				b.links = append(b.links, file)
+			}
+			if dissent != nil && !sameFiles(dissent, afterSub) {
+				// (when the differing file never leaves the sublayout the summaries agree: no defect)
+				b.defects = append(b.defects, "sub-disagree@"+st.Name)
 			}
 			b.tree = afterSub
 			if len(afterSub) == 0 {
@@ -335,6 +357,18 @@ func (b *c08Builder) buildLevel(lv c08Level, dir string, isRoot bool) hx.MLayout
 			ExpMat: [][]string{{"ALLOW", "*"}}, ExpProd: [][]string{{"ALLOW", "*"}}})
 	}
 	return lay
+}
+
+func sameFiles(a, b map[string]string) bool {
+	if len(a) != len(b) {
+		return false
+	}
+	for k, v := range a {
+		if w, ok := b[k]; !ok || w != v {
+			return false
+		}
+	}
+	return true
 }
 
 // stripDefects returns a copy of the level without any defect markers.
@@ -448,7 +482,7 @@ func TestC08(t *testing.T) {
 	hx.Assume("worlds are honest by construction apart from the labelled defect; all functionaries of a sublayout step offer the same sublayout, each signed by itself with its own link directory")
 	hx.Check[c08Case]{
 		Property: "C08", Part: "nestings",
-		Rule:  "generated two- and three-level nestings (1-2 steps per level, 1-2 functionaries per step with threshold = all, optional logging inspections per level, both wrappers and entry points) with at most one defect at one place of one functionary's evidence (missing/forged/tampered link, rule violation, unsatisfied threshold, sublayout with foreign or bad signature, sublayout without its link directory, expired sublayout, failing sublayout inspection), parent rules that require a product the sublayout does not deliver or forbid an artifact that never leaves the sublayout, sign-off last steps without products, and an unauthorised functionary offering a sublayout whose inspection writes a marker; accept iff no defect, marker never written; non-trivial = depth >= 2; distinct by case JSON",
+		Rule:  "generated two- and three-level nestings (1-2 steps per level, 1-3 functionaries per step with thresholds 1..n, optional logging inspections per level, both wrappers and entry points) with at most one defect at one place of one functionary's evidence (missing/forged/tampered link, rule violation, unsatisfied threshold, sublayout with foreign or bad signature, sublayout without its link directory, expired sublayout, failing sublayout inspection, sublayout links lying in the working directory instead of the link directory, one functionary's sublayout chain consistent in itself but delivering other products than the others'), parent rules that require a product the sublayout does not deliver or forbid an artifact that never leaves the sublayout, sign-off last steps without products, and an unauthorised functionary offering a sublayout whose inspection writes a marker; accept iff no defect, marker never written; non-trivial = depth >= 2; distinct by case JSON",
 		Cases: hx.Pick(600, 60000),
 		Gen:   c08Gen, Run: c08Run,
 	}.Execute(t)
